@@ -218,6 +218,10 @@ type Raft struct {
 	// read-only operation may only be confirmed by a round started after it was submitted.
 	heartbeatRound uint64
 
+	// Indicates that this node has won a prevote and has not yet held the
+	// election that the prevote permits.
+	electionPermitted bool
+
 	// Indicates that this node has been started and stopped. A stopped node has released
 	// its persisted state and must restore it when it is started again.
 	stopped bool
@@ -1259,10 +1263,14 @@ func (r *Raft) election() {
 		time.Since(r.lastContact) < r.options.electionTimeout {
 		return
 	}
-	if r.state == Follower {
+	// A candidate whose election timed out must win a new prevote before it may
+	// increment its term again. Otherwise a node that cannot reach the rest of the
+	// cluster would keep inflating its term and depose a healthy leader on its return.
+	if r.state == Follower || (r.state == Candidate && !r.electionPermitted) {
 		r.becomePreCandidate()
 	}
 	if r.state == Candidate {
+		r.electionPermitted = false
 		r.becomeCandidate()
 	}
 
@@ -1347,6 +1355,7 @@ func (r *Raft) sendRequestVote(id string, address string, votes *int, prevote bo
 		// Signal to the election loop to start an election so that the real election
 		// does not have to wait until the election ticker goes off again.
 		r.state = Candidate
+		r.electionPermitted = true
 		r.electionCond.Broadcast()
 	}
 
@@ -1952,6 +1961,7 @@ func (r *Raft) becomeLeader() {
 // becomeFollower transitions this node to the follower state.
 func (r *Raft) becomeFollower(leaderID string, term uint64) {
 	r.state = Follower
+	r.electionPermitted = false
 	// A vote is only forgotten when the term changes: stepping down within
 	// the current term must not allow a second vote in that term.
 	if term != r.currentTerm {
